@@ -59,7 +59,7 @@ contract(
             "fsync": "bool", "shared_perm": "opaque"},
     returns="None",
     requires=["not self.owns", "not self.committed"],
-    modifies=["self"],
+    modifies=["self"], assigns={"self._filename": "filename"},
     raises={"FileLocked": ["not self.owns"], ANY: ["not self.owns or self.stuck"]},       # no exit keeps a lock without a usable handle
     ensures=["self.owns", "not self._closed", "not self.committed"],
     options=OPTS,
@@ -159,7 +159,8 @@ WRITERS = [
     ("dulwich/pack.py", "PackData.create_index_v3"),
     ("dulwich/pack.py", "write_pack"),
     ("dulwich/pack.py", "Pack.keep"),
-    ("dulwich/refs.py", "DiskRefsContainer.add_packed_refs"),
+    ("dulwich/refs.py", "DiskRefsContainer._add_packed_refs"),
+    ("dulwich/refs.py", "DiskRefsContainer._prune_loose_ref"),
     ("dulwich/refs.py", "DiskRefsContainer._remove_packed_ref"),
     ("dulwich/refs.py", "DiskRefsContainer.set_symbolic_ref"),
     ("dulwich/refs.py", "DiskRefsContainer.set_if_equals"),
